@@ -11,6 +11,7 @@ TSave == Ev.op = "save" /\ ~Ev.crash
            /\ (IF Ev.ok THEN SaveOK([c |-> Ev.c, e |-> Ev.e]) ELSE SaveFail([c |-> Ev.c, e |-> Ev.e]))
            /\ file' = Obs                                             \* what re-loading the notebook yields
            /\ (Ev.ok => (Ev.found /\ Pairs(Ev.merged) = Pairs(Ev.main) \o Ents(file')))   \* searchable; main entries then notebook entries
+           /\ ((Ev.ok /\ Ev.pcheck) => Ev.pfound)                                          \* a saved pipeline: by the pipeline search, too
 TraceInit == l = 1 /\ file = [cls |-> "missing", ents |-> <<>>] /\ last = [op |-> "set", ok |-> TRUE, e |-> [c |-> 0, e |-> 0]]
 TraceNext == l <= Len(Trace) /\ l' = l + 1 /\ (TSet \/ TSave)
 TraceSpec == TraceInit /\ [][TraceNext]_<<nvars, l>>
